@@ -404,6 +404,38 @@ theorem unprompted_rule_judges :
 example : ∀ m ∈ exThroughout.members, Unconditional m := by
   intro m hm; simp [exThroughout] at hm; subst hm; exact ⟨by decide, by decide, fun _ => rfl⟩
 
+/-! ## 7. Every assignment wakes every auditor that watches the variable
+
+(the model-level counterpart of the oracles O-C02d / O-C02e: a sample wakes its watchers whether or not its value
+changed, and whoever else is awake already) -/
+
+/-- **setVar wakes all watchers**: after a non-nil assignment of `v`, every auditor among the watchers of `v` is
+awake — independently of the previous value of `v`, of the order of the watchers and of who was awake before -/
+theorem assignment_wakes_every_watcher (c : Cfg) (s : St) (ts : Rat) (typ : Typ) (v : VarName) (val : Val)
+    (cc : Bool) (hv : val.isNil = false) (w : Member) (hw : w ∈ c.watchers v) (ha : w.isAuditor = true) :
+    ((setVar c s ts typ v val cc).aud w.name).activated = true := by
+  unfold setVar
+  simp only [hv, Bool.false_eq_true, if_false]
+  have hne : (c.watchers v).isEmpty = false := by
+    cases h : c.watchers v with
+    | nil => rw [h] at hw; cases hw
+    | cons a l => rfl
+  simp only [hne, Bool.false_eq_true, if_false]
+  have : ((c.watchers v).any fun x => decide (x.name = w.name) && x.isAuditor) = true :=
+    List.any_eq_true.mpr ⟨w, hw, by simp [ha]⟩
+  simp [this]
+
+/-- … and nobody else's wake-up flag is cleared by it -/
+theorem assignment_keeps_the_awake (c : Cfg) (s : St) (ts : Rat) (typ : Typ) (v : VarName) (val : Val)
+    (cc : Bool) (n : String) (h : (s.aud n).activated = true) :
+    ((setVar c s ts typ v val cc).aud n).activated = true := by
+  unfold setVar
+  split
+  · exact h
+  · split
+    · exact h
+    · simp only; split <;> simp [h]
+
 /-! ## Non-vacuity -/
 
 /-- the hypotheses are satisfiable: distinct names, two members (one of them signal-only) -/
